@@ -2,13 +2,14 @@
 
 Hostile workload (corrupted grammar methods, raw unicode lines, random injected snippets, random user
 command schedules) against the real engine on the virtual clock. Deciding observations:
-  * exceptions out of Engine.tick (rig.tick(catch=True) collects them)                       -> never allowed
+  * exceptions out of Engine.tick (caught around rig.tick, with the traceback's function names)  -> never allowed
   * `failed` False->True descriptor events of AST nodes, judged at the end of the same tick  -> Paused / Error /
     failed_line_ids
   * after an error: Stop accepted and Stopped within 4 ticks; corrected method clears Method Status
 See DESIGN.md C13."""
 from __future__ import annotations
 
+import gc
 import random
 
 from opv.core import Result
@@ -19,7 +20,8 @@ LEVEL = "exploration"
 TECHNIQUE = ("runtime monitoring: exception monitor on Engine.tick plus end-of-tick state oracle on node `failed` "
              "transitions, under fuzzed methods / injections / user command schedules")
 RULE = ("seeded P-code generator output with 0-4 random corruptions (unknown commands/tags, bad units, bad arguments, "
-        "wrong indentation, missing arguments, stray colons, unicode, very long lines, scripted failing UOD command) or "
+        "wrong indentation, missing arguments, stray colons, unicode, very long lines, scripted failing UOD command, "
+        "Simulate/Watch/Alarm on engine-owned system tags) or "
         "raw random unicode lines; x random injected snippets (valid and unparsable) x random user command schedule "
         "(Pause/Unpause/Hold/Unhold/Stop/Start/Restart/UOD/unknown names); 30 ticks (thorough 45) on the virtual clock; "
         "afterwards either Stop or a corrected method followed by Stop. distinct = shape hash of the method text + "
@@ -67,7 +69,14 @@ def corrupt_line(rnd: random.Random, line: str) -> tuple[str, str]:
     pad = " " * ind
     body = line.strip()
     kind = rnd.choice(["unknown_cmd", "unknown_tag", "bad_unit", "bad_arg", "indent", "missing_arg", "colons",
-                       "unicode", "long", "fail_cmd", "threshold", "control"])
+                       "unicode", "long", "fail_cmd", "threshold", "control", "sim_system_tag"])
+    if kind == "sim_system_tag":
+        tag = rnd.choice(["Connection Status", "Process Time", "Run Time", "System State", "Clock", "Base", "Run Counter",
+                          "Block Time", "Scope Time", "Method Status", "Run Id", "Block", "Mark", "Batch Name",
+                          "Accumulated Volume", "Block Volume"])
+        val = rnd.choice(["1", "10 ms", "5 s", "abc", "x", "kg", "0", "-1", "Connected", "Error", "2 L", "1 h", "0.5 min"])
+        return kind, pad + rnd.choice([f"Simulate: {tag} = {val}", f"Simulate: {tag} = {val}", f"Simulate off: {tag}",
+                                       f"Watch: {tag} > {val}", f"Alarm: {tag} = {val}"])
     if kind == "unknown_cmd":
         return kind, pad + rnd.choice(["Bogus", "Bogus: 1", "Shrt", "mark: a", "MARK: a", "Danger: zz", "Noop: x",
                                        "Call macro: nope", "End", "Endblock", "Start", "Unpause", "Unhold"])
@@ -141,7 +150,9 @@ SNIPPETS = ["Mark: i1", "Short", "Long\nMark: i2", "Wait: 0.3s\nMark: i3", "Bloc
             "Mark", "Watch", ": x", "Set1: abc", "Mode: C", "Unpause", "# only a comment", "0.5 Mark: thr",
             "Simulate: X = 3", "Simulate off: Nope", "Increment run counter", "Block: open\n    Mark: never ended",
             "Other\nOther", "Long\nLong2", "Mark: a\n        Mark: b", "Macro: M0\n    Mark: redefined",
-            "Call macro: IM", "Base: s", "Base: min", "Info: hi", "Notify: n", "Batch: b", "Run counter: x"]
+            "Call macro: IM", "Base: s", "Base: min", "Info: hi", "Notify: n", "Batch: b", "Run counter: x",
+            "Simulate: Connection Status = 1", "Simulate: Process Time = 10 ms", "Simulate: Run Time = abc",
+            "Simulate: System State = Stopped", "Simulate off: Process Time"]
 
 
 def gen_case(rnd: random.Random, ticks: int) -> dict:
@@ -242,15 +253,25 @@ def check_case(case: dict, res: Result):
             n0 = len(R.TRACE)
             ne0 = len(errs)
             nexc = len(rig.tick_exc)
-            rig.tick(catch=True)
+            tb = _tick(rig)
             res.count("ticks")
-            if len(rig.tick_exc) > nexc:
-                viol.append((None, f"Engine.tick raised at tick {rig.k}: {rig.tick_exc[-1][1]}"))
+            if tb is not None:
+                viol.append((_classify_exception(rig, tb), f"Engine.tick raised at tick {rig.k}: {tb[0]}: {tb[1]} "
+                                                                f"(via {' > '.join(tb[2][-4:])})"))
                 break
             # ---- failing instruction => Paused / Error / failed_line_ids, judged at the end of the same tick.
             # Two independent triggers: a node's `failed` flag going True, and Engine.set_error_state being called from
             # inside the tick (the exception names the failing node when the interpreter knows it).
             failed_events = [e for e in R.TRACE[n0:] if e[1] == "failed" and e[5] is True]
+            if failed_events:
+                # Only nodes the engine can currently reach count. Generators of a discarded interpreter (after Stop /
+                # Restart / an earlier case) are finalised by the garbage collector at arbitrary moments; if a `finally`
+                # clause of PInterpreter.visit raises there, the enclosing frames mark their (dead) nodes failed.
+                live = _live_node_ids(rig)
+                dead = [e for e in failed_events if e[6] not in live]
+                if dead:
+                    res.count("failed_events_on_unreachable_nodes_ignored", len(dead))
+                    failed_events = [e for e in failed_events if e[6] in live]
             err_calls = errs[ne0:]
             if failed_events or err_calls:
                 res.count("failed_node_events", len(failed_events))
@@ -258,7 +279,10 @@ def check_case(case: dict, res: Result):
                 state = rig.state
                 status = str(rig.tag("Method Status"))
                 ambiguous = (rig.k - last_stop_restart <= 3) or state in ("Stopped", "Restarting")
-                if ambiguous:
+                if {"System State", "Method Status"} & _simulated(rig):
+                    # the reported state is masked by a Simulate instruction: the observation channel is not usable
+                    res.count("failed_tick_ambiguous_state_tag_simulated")
+                elif ambiguous:
                     res.count("failed_tick_ambiguous_stop_or_restart_in_flight")
                 elif method_has_stop and state != "Paused":
                     res.count("failed_tick_ambiguous_method_has_stop")
@@ -300,7 +324,10 @@ def check_case(case: dict, res: Result):
         # ---- responsiveness after an error
         err = rig.e.has_error_state() and not rig.tick_exc
         state = rig.state
-        if err and state not in ("Stopped", "Restarting") and rig.k - last_stop_restart > 3:
+        if err and {"System State", "Method Status"} & _simulated(rig):
+            # reported state and command gating read a tag masked by Simulate (same family as SIM_KEY); counted only
+            res.count("error_runs_not_post_checked_state_tag_simulated")
+        elif err and state not in ("Stopped", "Restarting") and rig.k - last_stop_restart > 3:
             res.count("runs_ending_in_error")
             did_fix = False
             if case["post"] == "fix":
@@ -341,16 +368,18 @@ def check_case(case: dict, res: Result):
                                      else "C13.corrected_method_rejected",
                                      f"correcting failed line(s) {failed} rejected: {ex}"[:400]))
                     except Exception as ex:
-                        viol.append(("C13.corrected_method_raised",
-                                     f"correcting failed line(s) {failed} raised {type(ex).__name__}: {ex}"[:400]))
+                        import traceback as _tb
+                        tb = (type(ex).__name__, str(ex)[:300], [f.name for f in _tb.extract_tb(ex.__traceback__)])
+                        viol.append((_classify_exception(rig, tb) or "C13.corrected_method_raised",
+                                     f"correcting failed line(s) {failed} raised {type(ex).__name__}: {ex} "
+                                     f"(via {' > '.join(tb[2][-3:])})"[:400]))
                     # a few ticks with the corrected method: still no exception out of tick
                     for _ in range(3):
-                        nexc = len(rig.tick_exc)
-                        rig.tick(catch=True)
+                        tb = _tick(rig)
                         res.count("ticks")
-                        if len(rig.tick_exc) > nexc:
-                            viol.append((None, f"Engine.tick raised after corrected method at tick {rig.k}: "
-                                                            f"{rig.tick_exc[-1][1]}"))
+                        if tb is not None:
+                            viol.append((_classify_exception(rig, tb), f"Engine.tick raised after corrected method at tick "
+                                                                       f"{rig.k}: {tb[0]}: {tb[1]}"))
                             break
                 else:
                     res.count("error_without_failed_method_line")
@@ -364,17 +393,16 @@ def check_case(case: dict, res: Result):
                     ok = False
                     late_failure = False
                     for j in range(4):
-                        nexc = len(rig.tick_exc)
                         ne0 = len(errs)
-                        rig.tick(catch=True)
+                        tb = _tick(rig)
                         res.count("ticks")
                         if len(errs) > ne0 and not rig.e._runstate_started and rig.state == "Paused":
                             # Stop completed in this tick (run no longer started) and a command that was still in the
                             # old command manager's list failed afterwards in the same command phase
                             late_failure = True
-                        if len(rig.tick_exc) > nexc:
-                            viol.append((None, f"Engine.tick raised while stopping at tick {rig.k}: "
-                                                            f"{rig.tick_exc[-1][1]}"))
+                        if tb is not None:
+                            viol.append((_classify_exception(rig, tb), f"Engine.tick raised while stopping at tick {rig.k}: "
+                                                                       f"{tb[0]}: {tb[1]}"))
                             break
                         if rig.state == "Stopped":
                             ok = True
@@ -392,6 +420,8 @@ def check_case(case: dict, res: Result):
                               "users": case["users"][:5], "ended_in_error": bool(err), "failed_ticks_judged": judged})
     finally:
         rig.close()
+        del rig
+        gc.collect()        # finalise this case's interpreter generators now, not during the next case
     seen = set()
     for mech, msg in viol:
         if (mech, msg) in seen:
@@ -401,6 +431,69 @@ def check_case(case: dict, res: Result):
 
 
 import re as _re
+
+
+def _tick(rig):
+    """One tick; returns None or (exception type name, text, [function names of the traceback, outermost first])."""
+    import traceback
+    try:
+        rig.tick()
+        return None
+    except Exception as ex:  # noqa - recorded in rig.tick_exc by the rig as well
+        return (type(ex).__name__, str(ex)[:300], [f.name for f in traceback.extract_tb(ex.__traceback__)])
+
+
+def _live_node_ids(rig) -> set:
+    """python ids of all AST nodes reachable from the engine right now: the method program, the program the
+    interpreter runs, nodes of registered interrupts (injected code) and the null nodes of user commands."""
+    out = set()
+    try:
+        e = rig.e
+        progs = [e.method_manager.program, e.interpreter._program]
+        for pr in progs:
+            for n in pr.get_all_nodes():
+                out.add(id(n))
+        for intr in e.interpreter.interrupts:
+            out.add(id(intr.node))
+            for n in intr.node.get_child_nodes(recursive=True):
+                out.add(id(n))
+        info = e.interpreter.runtimeinfo
+        for n in list(info._null_node_map.values()) + list(info._injected_node_map.values()):
+            out.add(id(n))
+            if hasattr(n, "get_child_nodes"):
+                for ch in n.get_child_nodes(recursive=True):
+                    out.add(id(ch))
+    except Exception:
+        pass
+    return out
+
+
+SIM_KEY = "C13.simulate_masks_engine_owned_tag"
+
+
+def _simulated(rig) -> set:
+    try:
+        return {t.name for t in rig.e._system_tags.tags.values() if getattr(t, "simulated", False)}
+    except Exception:
+        return set()
+
+
+def _classify_exception(rig, tb) -> str | None:
+    """Narrow causal shape of the known way in which engine code raises: a `Simulate:` instruction masks an
+    engine-owned system tag and engine bookkeeping reads the masked value back (the traceback must pass through the
+    reading function and that very tag must be simulated right now). Anything else stays unclassified."""
+    simulated = _simulated(rig)
+    if tb[0] == "AssertionError" and "notify_tag_updates" in tb[2] and "Connection Status" in simulated:
+        return SIM_KEY
+    if tb[0] == "ValueError" and "update_calculated_tags" in tb[2] and "as_float" in tb[2] and \
+            ({"Process Time", "Run Time"} & simulated):
+        return SIM_KEY
+    if tb[0] in ("TypeError", "ValueError", "OverflowError", "OSError") and "format_time_as_clock" in tb[2] and \
+            "Clock" in simulated:
+        return SIM_KEY
+    return None
+
+
 _UNPAUSE_RE = _re.compile(r"Unpause|Unhold|(Pause|Hold)\s*:")
 
 
